@@ -711,15 +711,46 @@ example : builtinTypeNamesDistinct sampleSchema = true ∧ builtinDirectiveNames
     builtinDirectivesNotRedeclared sampleSchema = true ∧ checkSchema sampleSchema = [] := by decide
 
 /-
-Nothing of the C05 statement is left OPEN. Completeness (`C05_complete`) is in Props/C05Complete.lean.
+Status of the C05 statement. Completeness (`C05_complete : TsSpecValid T → checkSchema T = []`, no side condition) is in
+Props/C05Complete.lean. Soundness is proved rule by rule; every rule has a theorem, but several theorems carry
+hypotheses that are NOT discharged anywhere in Lean:
+
+* `builtinTypeNamesDistinct T` — `C05_sound_implementsInterfaces`, `_unionMembersObjects`, `_transitiveInterfaces`,
+  `_ifaceFieldsPresent`, `_ifaceFieldsCovariant`, `_ifaceFieldArgs`, third part of `C05_unique_type_names`,
+  `C05_sound_noRecursiveDirectives`. A fact about the constant list `generate_builtins()` (by reading; not proved about
+  that list, not evaluated by the harness).
+* `builtinDirectiveNamesDistinct T` (same kind of fact) and `builtinDirectivesNotRedeclared T` — `C05_unique_directive_names_all`,
+  `C05_sound_noRecursiveDirectives_partial`, `C05_sound_noRecursiveDirectives`. The second is a property of the USER's
+  document that the code does not enforce (`sampleWithBuiltins` is accepted and re-declares `@deprecated`;
+  `C05_unique_names_complete`). So the recursion clause is proved "in full" only in the sense that the conclusion is the
+  specification's rule (no longer the code's own graph); for documents that re-declare a built-in directive it is OPEN, as
+  is `uniqueDirectiveNames` (violated there by construction: the specification's rule counts the built-ins). What holds
+  for every document is `directiveRec_iff_canonical`.
+* `builtinDirectivesLast T` — `C05_unique_directive_names_partial` (false without it: `C05_unique_directive_names_counterexample`).
+* `dupOriginal? T = none` (on the unresolved document) — `C05_sound_uniqueTypeDefs`; it does not follow from
+  `checkSchema T = []`, and no theorem states the converse (`uniqueTypeDefs T → dupOriginal? T = none`).
+* `uniqueTypeNames`, `uniqueDirectiveNames`, `inputPositions` — `C05_recursion_exact` (the last one shown necessary by
+  `C05_recursion_exact_needs_inputPositions`); `Canonical` / `TCanonical` — `directiveRec_iff_canonical`,
+  `C05_directivesInType_exact`, `C05_directivesInType_fuel`.
 
 One clause of the statement is FALSE of the code and therefore proved only in restricted form:
 * `checkSchema T = [] → Holds_knownTypes T`: counterexample `C05_sound_knownTypes_counterexample` (root
-  operation types); what holds is `C05_sound_knownTypes_partial`.
+  operation types; open finding); what holds is `C05_sound_knownTypes_partial` (hypothesis `knownRootTypes T`).
 The recursion clause `checkSchema T = [] → Holds_noRecursiveDirectives T` was the second one until fix 2e4a65e
-(`C05_sound_noRecursiveDirectives_prerepair_witness`); it is now proved in full (`C05_sound_noRecursiveDirectives`), and
-the rule is exact (`C05_recursion_exact`). The executable closure of the specification and its relational form are
-proved equivalent (`noRecursiveDirectives_iff`, Lemmas/ValidTsClosure.lean).
+(`C05_sound_noRecursiveDirectives_prerepair_witness`); since the fix it is proved under the three built-in side
+conditions above (`C05_sound_noRecursiveDirectives`), and the rule is exact (`C05_recursion_exact`). The executable
+closure of the specification and its relational form are proved equivalent (`noRecursiveDirectives_iff`,
+Lemmas/ValidTsClosure.lean).
+
+OPEN — carried by K/O only:
+* that `checkSchema` / `dupOriginal?` (hand-written models, incl. `intLiteralFitsI32` for `parse::<i32>` and the
+  hand-written `ErrKind`) compute what the Rust code computes — K stream of harness/src/bin/c05.rs;
+* that `Spec/ValidTs.lean` says what the GraphQL specification says — trusted transcription, exercised by the O stream;
+* the specification-level recursion rule for accepted documents that re-declare a built-in directive (K only; the
+  specification's `uniqueDirectiveNames` is violated by such a document, the user-side statement is
+  `C05_unique_directive_names_partial`), and the no-false-alarm direction for them (O mode `valid-redeclare`;
+  `C05_complete` does not cover it because `TsSpecValid` contains `uniqueDirectiveNames`);
+* the parser and the merging part of `resolve_schema_extensions` (not modelled; the theorems speak of the resolved document).
 -/
 
 end NitroVerif.CheckTs
